@@ -16,7 +16,8 @@
 (*   Hook(to, task, reason)  the machine performs a transition (to = "none": the run   *)
 (*                       ends; task = kind of the request pending at that moment,      *)
 (*                       reason = kind of the machine's cleanup_reason)                *)
-(*   Update(code,st,own) a status update is sent to the clients (own: by start_machine)*)
+(*   Update(code, st)    a status update is sent to the clients                        *)
+(*   Polled              a doPoll call has returned                                    *)
 (*   Quiet(act, pend, code, st, fast)  nothing is executing: machine active?, pending  *)
 (*                       request kind, the module's status, fast polling on?           *)
 (* Status texts are not part of the property (the spec is silent on them) except that  *)
@@ -39,11 +40,13 @@ VARIABLES req,      \* a start was requested and the machine has not finished si
           fin,      \* set of statuses allowed while the machine is inactive ({}: any non-busy status)
           errdue,   \* HasStates.on_error has just handled the failure of the run
           finerr,   \* the run ended through on_error: an ERROR status is due while inactive
-          fastreq   \* a start request asked for fast polling and the machine has not finished since
-hvars == <<req, stopst, finalst, fin, ending, errdue, finerr, fastreq>>
+          fastreq,  \* a start request asked for fast polling and the machine has not finished since
+          grace     \* start_machine() returned after its machine had already finished again: fast polling
+                    \* may still be on until the next poll has switched it off
+hvars == <<req, stopst, finalst, fin, ending, errdue, finerr, fastreq, grace>>
 
 HInit == /\ req = FALSE /\ stopst = AnySt /\ finalst = AnySt /\ fin = {} /\ ending = FALSE
-         /\ errdue = FALSE /\ finerr = FALSE /\ fastreq = FALSE
+         /\ errdue = FALSE /\ finerr = FALSE /\ fastreq = FALSE /\ grace = FALSE
 
 (* start_machine() is not one step: it hands the request to the machine (Posted: from here *)
 (* on the machine is about to run, busy is due) and it writes / publishes the BUSY status   *)
@@ -51,10 +54,14 @@ HInit == /\ req = FALSE /\ stopst = AnySt /\ finalst = AnySt /\ fin = {} /\ endi
 (* the steps: a machine that already finished again before start_machine() returns owes no  *)
 (* busy status and no fast polling any more.                                                *)
 Posted == /\ req' = TRUE /\ ending' = FALSE
-          /\ UNCHANGED <<stopst, finalst, fin, errdue, finerr, fastreq>>
+          /\ UNCHANGED <<stopst, finalst, fin, errdue, finerr, fastreq, grace>>
 
 Started(fast) == /\ fastreq' = ((fastreq \/ fast) /\ req)
+                 /\ grace' = (grace \/ (fast /\ ~req))
                  /\ UNCHANGED <<req, ending, stopst, finalst, fin, errdue, finerr>>
+
+(* a poll (doPoll) has completed *)
+Polled == grace' = FALSE /\ UNCHANGED <<req, ending, stopst, finalst, fin, errdue, finerr, fastreq>>
 
 (* a stop request accepted while a run is ending cancels a start it would hand over to *)
 (* (the machine finishes) and its stopped status becomes an admissible final status   *)
@@ -63,14 +70,14 @@ StopReq(act, st) == /\ stopst' = IF act THEN st ELSE stopst
                        THEN /\ req' = FALSE /\ fastreq' = FALSE /\ finerr' = FALSE
                             /\ fin' = (IF fin = {} THEN {} ELSE fin \cup {st})
                        ELSE UNCHANGED <<req, fin, fastreq, finerr>>
-                    /\ UNCHANGED <<finalst, ending, errdue>>
+                    /\ UNCHANGED <<finalst, ending, errdue, grace>>
 
-Final(st) == finalst' = st /\ UNCHANGED <<req, stopst, fin, ending, errdue, finerr, fastreq>>
+Final(st) == finalst' = st /\ UNCHANGED <<req, stopst, fin, ending, errdue, finerr, fastreq, grace>>
 
 (* the general cleanup dispatches on the kind of the cleanup reason *)
 OnCleanup(kind, reason) == /\ kind = reason
                            /\ errdue' = (kind = "error")
-                           /\ UNCHANGED <<req, stopst, finalst, fin, ending, finerr, fastreq>>
+                           /\ UNCHANGED <<req, stopst, finalst, fin, ending, finerr, fastreq, grace>>
 
 (* statuses the property determines for a run ending now: the final status announced   *)
 (* by the state function that returned Finish, the stopped status when a stop request   *)
@@ -87,37 +94,36 @@ Hook(to, task, reason) ==
          \* (a stop request in force at that moment may legitimately give the stopped status instead)
          /\ finerr' = (errdue /\ reason = "error" /\ finalst = AnySt /\ task # "stop")
          /\ ending' = TRUE
-         /\ finalst' = AnySt /\ errdue' = FALSE /\ UNCHANGED stopst
+         /\ finalst' = AnySt /\ errdue' = FALSE /\ UNCHANGED <<stopst, grace>>
     ELSE /\ finalst' = AnySt /\ ending' = FALSE /\ errdue' = FALSE
-         /\ UNCHANGED <<req, stopst, fin, finerr, fastreq>>
+         /\ UNCHANGED <<req, stopst, fin, finerr, fastreq, grace>>
 
-(* BusyWhileRunning, update stream: no non-busy update between start request and finish; *)
-(* own = the update is sent by start_machine() itself (the request is being made)       *)
-Update(code, st, own) == /\ (req \/ own) => Busy(code)
-                         /\ UNCHANGED hvars
+(* BusyWhileRunning, update stream: no non-busy update between start request and finish *)
+Update(code, st) == /\ req => Busy(code)
+                    /\ UNCHANGED hvars
 
 (* BusyWhileRunning, state: busy iff the machine is active or about to start, polling    *)
 (* fast when asked for; afterwards the final / stopped / error status and normal polling *)
 Quiet(act, pend, code, st, fast) ==
-    /\ ending' = FALSE /\ UNCHANGED <<req, stopst, finalst, fin, errdue, finerr, fastreq>>
+    /\ ending' = FALSE /\ UNCHANGED <<req, stopst, finalst, fin, errdue, finerr, fastreq, grace>>
     /\ (act \/ pend = "start") => (Busy(code) /\ req /\ (fastreq => fast))
-    /\ ~(act \/ pend = "start") => (/\ ~Busy(code) /\ ~req /\ ~fast
+    /\ ~(act \/ pend = "start") => (/\ ~Busy(code) /\ ~req /\ (fast => grace)
                                     /\ (fin = {} \/ st \in fin)
                                     /\ (finerr => IsError(code)))
 
-HNext == \/ Posted
+HNext == \/ Posted \/ Polled
          \/ \E fast \in BOOLEAN : Started(fast)
          \/ \E act \in BOOLEAN, st \in Statuses : StopReq(act, st)
          \/ \E st \in Statuses : Final(st)
          \/ \E kind \in {"start", "stop", "error"} : OnCleanup(kind, kind)
          \/ \E to \in {"none", "s"}, task \in {"none", "start", "stop"}, reason \in {"none", "start", "stop", "error"} :
                Hook(to, task, reason)
-         \/ \E code \in Codes, st \in Statuses, own \in BOOLEAN : Update(code, st, own)
+         \/ \E code \in Codes, st \in Statuses : Update(code, st)
          \/ \E act \in BOOLEAN, pend \in {"none", "start", "stop"}, code \in Codes, st \in Statuses, fast \in BOOLEAN :
                Quiet(act, pend, code, st, fast)
 HSpec == HInit /\ [][HNext]_hvars
 
-HTypeOK == /\ {req, ending, errdue, finerr, fastreq} \subseteq BOOLEAN
+HTypeOK == /\ {req, ending, errdue, finerr, fastreq, grace} \subseteq BOOLEAN
            /\ {stopst, finalst} \subseteq Statuses \cup {AnySt} /\ fin \subseteq Statuses
 (* the requirement is only lifted at a finish and only raised by a start request *)
 ReqDiscipline == [][/\ (req /\ ~req') => (ending' /\ fin' \subseteq fin \cup {stopst', finalst})
